@@ -454,4 +454,5 @@ pub fn run(run: &mut Run) {
     run.assume("a notification counts as belonging to a write through the write's unique value; increments and removes are counted");
     run.assume("writes that overlap the watch/unsubscribe call itself may or may not be notified (0 or 1 times)");
     run.assume("notification loss through a full 100-slot client channel is outside the bound (needs > 100 queued messages)");
+    super::c03_seq::run(run);
 }
